@@ -39,7 +39,7 @@ REQUIRED_TAGS = ['op=circle', 'op=ellipse', 'op=arc', 'op=three', 'op=ngon', 'op
                  'normal=nonunit', 'stream=exact', 'stream=float', 'spans=1', 'spans=2', 'spans=3', 'theta<0',
                  'theta=2pi', 'theta=threshold', 'raises']
 
-KNOWN_LABELS = ['three-point-arc-wrong-end', 'three-point-arc-nan-half-turn', 'arc-2pi-ignores-xaxis', 'near-ez-normal-misplaced',
+KNOWN_LABELS = ['three-point-arc-wrong-end', 'three-point-arc-nan-half-turn', 'three-point-arc-half-turn-accuracy', 'arc-2pi-ignores-xaxis', 'near-ez-normal-misplaced',
                 'volume-revolve-negative-theta-reversed', 'cylinder-height-scaled-by-axis-norm']
 
 PI_F = F(math.pi)
@@ -865,7 +865,7 @@ def o_three(sp, s, c):
         f.append('three-point arc: starts at %s, not at x0' % a.tolist())
     v0, v2 = p[0] - ctr, p[2] - ctr
     half = np.linalg.norm(v0 + v2) < 1e-6 * r     # x0, x2 antipodal: arccos is accurate to sqrt(eps) only
-    lab = '[three-point-arc-nan-half-turn] ' if half else '[three-point-arc-wrong-end] '
+    lab = '[three-point-arc-half-turn-accuracy] ' if half else '[three-point-arc-wrong-end] '
     bad_end = False
     if not np.linalg.norm(e - p[2]) <= RTOL * sc:
         bad_end = True
